@@ -27,7 +27,9 @@ RULE = (
     "(SIGKILL, SIGTERM) while the parent computes evaluation j (immediately, or 0.6 s later while the parent waits for the next request), for j = 0..2 (quick) / every j (thorough) of several "
     "configurations, and the evaluator raises at evaluation j. Oracle: never OPTIMIZER_STEP_FINISHED after a kill, the "
     "step returns within 30 s of the kill, no optimizer process is left running afterwards, the evaluator's exception "
-    "reaches the caller. Non-trivial: an equality run with >=3 evaluations, or any crash point."
+    "reaches the caller. Error reports: a backend plug-in (found by both processes through its entry point) that, after k "
+    "evaluations, raises with / without a message, fails a bare assert, or leaves the process with exit status 3: the run ends "
+    "with an error within 40 s and no process is left. Non-trivial: an equality run with >=3 evaluations, or any crash point."
 )
 ASSUMPTIONS = [
     "the kill schedule is owned at message granularity (the child is killed while it waits for the answer to request j)",
@@ -63,6 +65,13 @@ CONFIGS: dict[str, dict[str, Any]] = {
                            "variables": {"lower_bounds": [-float("inf")] * 3, "upper_bounds": [float("inf")] * 3},
                            "nonlinear_constraints": {"lower_bounds": [-1.0], "upper_bounds": [float("inf")]}},
     "slsqp-explicit-start": {"optimizer": {"method": "slsqp", "options": {"maxiter": 3}}, "_start": [0.9, 0.4, -0.7]},
+    # messages of more than 4 KiB (one pipe buffer): many variables / linear constraints, a large vectorized population
+    "slsqp-large": {"optimizer": {"method": "slsqp", "options": {"maxiter": 2}}, "_n": 30,
+                    "linear_constraints": {"coefficients": [[((3 * i + 7 * j) % 5 - 2) * 0.25 for j in range(30)] for i in range(8)],
+                                           "lower_bounds": [-50.0] * 8, "upper_bounds": [50.0] * 8},
+                    "gradient": {"number_of_perturbations": 2, "perturbation_magnitudes": 0.02}},
+    "de-vectorized-large": {"optimizer": {"method": "differential_evolution", "parallel": True,
+                                          "options": {"seed": 3, "popsize": 4, "maxiter": 1, "tol": 0.0}}, "_n": 9},
     "de-explicit-start-masked": {"optimizer": {"method": "differential_evolution", "options": {"seed": 5, "popsize": 2, "maxiter": 1, "tol": 0.0}},
                                  "variables": {"mask": [True, True, False]}, "_start": [-0.5, 0.25, 1.1]},
 }
@@ -97,9 +106,10 @@ def child_pids() -> list[int]:
 
 
 def build(name: str, external: bool) -> tuple[dict[str, Any], AffineEvaluator, int | None]:  # noqa: FBT001
-    spec = CONFIGS[name]
+    spec = CONFIGS[name] if name in CONFIGS else {"optimizer": {"method": name}}
+    n = spec.get("_n", 3)
     cfg: dict[str, Any] = {
-        "variables": {"initial_values": [0.3, -0.2, 0.6], "lower_bounds": [-2.0] * 3, "upper_bounds": [2.0] * 3},
+        "variables": {"initial_values": [[0.3, -0.2, 0.6][i % 3] + 0.01 * (i // 3) for i in range(n)], "lower_bounds": [-2.0] * n, "upper_bounds": [2.0] * n},
         "realizations": {"weights": [1.0, 1.0]},
         "gradient": {"number_of_perturbations": 3, "perturbation_magnitudes": 0.02},
     }
@@ -115,6 +125,7 @@ def build(name: str, external: bool) -> tuple[dict[str, Any], AffineEvaluator, i
         cfg["optimizer"] = {**cfg["optimizer"], "method": "external/" + cfg["optimizer"]["method"]}
     c_n = 1 if "nonlinear_constraints" in cfg else 0
     a = np.array([[[0.5, -1.0, 0.25]] + [[0.3, 0.2, -0.4]] * c_n, [[1.0, 0.25, -0.5]] + [[-0.2, 0.4, 0.1]] * c_n])
+    a = np.concatenate([a * (1.0 + 0.1 * k) for k in range((n + 2) // 3)], axis=2)[:, :, :n]
     ev = AffineEvaluator(a[:, :1], np.zeros((2, 1)), a[:, 1:] if c_n else None, np.zeros((2, c_n)) if c_n else None, quad=1.0)
     if spec.get("_fail") == "all-at-2":
         ev.fail = {(2, r, -1): [("obj", 0)] for r in range(2)}
@@ -187,9 +198,9 @@ def run_config(name: str, external: bool, kill: tuple[Any, ...] | None = None, r
     plan = Plan(ctx)
     step = plan.add_step("optimizer")
     out: dict[str, Any] = {"exc": None, "code": None, "hang": False}
-    start = CONFIGS[name].get("_start")
+    start = CONFIGS.get(name, {}).get("_start")
     transforms = None
-    if CONFIGS[name].get("_vscale"):
+    if CONFIGS.get(name, {}).get("_vscale"):
         from ropt.transforms import OptModelTransforms, VariableScaler
 
         transforms = OptModelTransforms(variables=VariableScaler(*(np.array(v) for v in CONFIGS[name]["_vscale"])))
@@ -301,11 +312,85 @@ def run_standin(case: dict[str, Any]) -> dict[str, Any]:
     return {"calls": 0, "code": out["code"], "exc": type(out["exc"]).__name__ if out["exc"] else None}
 
 
+EXTPLUG = os.path.join(os.path.dirname(os.path.dirname(os.path.abspath(__file__))), "harness", "extplug")
+
+
+def run_child_error(case: dict[str, Any]) -> dict[str, Any]:
+    """A backend that fails inside the optimizer process (plug-in harness/extplug, found through its entry point).
+
+    Run in a fresh interpreter that has the plug-in directory on its path from the start (ropt caches entry points).
+    """
+    import json
+    import subprocess
+    import sys
+
+    env = dict(os.environ)
+    env["PYTHONPATH"] = EXTPLUG + os.pathsep + env.get("PYTHONPATH", "")
+    code = ("import json,sys\nfrom checks.c20_external import child_error_inner\n"
+            "print('RESULT ' + json.dumps(child_error_inner(json.loads(sys.stdin.read()))))\n")
+    proc = subprocess.Popen([sys.executable, "-c", code], stdin=subprocess.PIPE, stdout=subprocess.PIPE, stderr=subprocess.PIPE,  # noqa: S603
+                            text=True, env=env, start_new_session=True)
+    try:
+        stdout, stderr = proc.communicate(json.dumps(case), timeout=150)
+    except subprocess.TimeoutExpired:
+        os.killpg(proc.pid, signal.SIGKILL)
+        proc.communicate()
+        check(False, "hang", f"the run with a backend failing in the optimizer process ({case['error']}) did not end within 150 s", case)  # noqa: FBT003
+    finally:
+        try:
+            os.killpg(proc.pid, signal.SIGKILL)
+        except OSError:
+            pass
+    for line in stdout.splitlines():
+        if line.startswith("RESULT "):
+            res = json.loads(line[7:])
+            if res.get("violation"):
+                check(False, res["violation"][0], res["violation"][1], case)  # noqa: FBT003
+            return res
+    msg = f"child-error helper failed: {stderr[-800:]}"
+    raise HarnessError(msg)
+
+
+def child_error_inner(case: dict[str, Any]) -> dict[str, Any]:
+    method = f"c20verif/verif-{case['error']}-{case['after']}"
+    os.environ["C20VERIF_IN_PARENT"] = str(os.getpid())
+    try:
+        inproc = run_config(method, False) if case["error"] != "exit3" else None
+        signal.signal(signal.SIGALRM, _alarm)
+        signal.alarm(40)
+        t0 = time.time()
+        ext = run_config(method, True)
+        took = time.time() - t0
+        check(not ext["hang"], "hang", f"the backend in the optimizer process failed ({case['error']}) after {case['after']} evaluation(s) and the step "
+              "did not return within 40 s", case)
+        check(not ext["leftover"], "child-left-running", f"optimizer process {ext['leftover']} still running after the step returned", case)
+        check(ext["calls"] == case["after"], "trace-differs",
+              f"{ext['calls']} evaluations, the backend asks for {case['after']} (outcome {ext['code']!r} / {ext['exc']!r})", case)
+        if case["error"] == "finish":
+            assert inproc is not None
+            check(ext["exc"] is None and ext["code"] == inproc["code"], "exit-code-differs", f"in-process {inproc['code']!r}, external {ext['code']!r} / {ext['exc']!r}", case)
+            check(ext["requests"] == inproc["requests"] and ext["results_hash"] == inproc["results_hash"], "trace-differs", "external trace differs", case)
+        else:
+            if inproc is not None:
+                check(inproc["exc"] is not None and type(inproc["exc"]).__name__ in ("RuntimeError", "AssertionError", "ValueError"), "harness",
+                      f"in-process run of the failing backend: {inproc['code']!r} / {inproc['exc']!r}", case)
+            check(ext["exc"] is not None or ext["code"] != OptimizerExitCode.OPTIMIZER_STEP_FINISHED, "error-reported-as-success",
+                  f"the backend in the optimizer process failed ({case['error']}) but the step returned {ext['code']!r}", case)
+    except Violation as v:
+        return {"violation": [v.signature, v.message]}
+    finally:
+        signal.alarm(0)
+    return {"calls": ext["calls"], "code": None if ext["code"] is None else ext["code"].name, "exc": type(ext["exc"]).__name__ if ext["exc"] else None,
+            "seconds": round(took, 1)}
+
+
 def run_case(case: dict[str, Any]) -> dict[str, Any]:
     name = case["config"]
     kind = case["kind"]
     if kind == "standin":
         return run_standin(case)
+    if kind == "child-error":
+        return run_child_error(case)
     if kind == "equal":
         a = run_config(name, False)
         b = run_config(name, True)
@@ -361,6 +446,9 @@ def shards(tier: str, seed: int) -> list[dict[str, Any]]:  # noqa: ARG001
     for at in (1, 2):
         for mode in ("after-request", "after-answer"):
             items.extend({"kind": "standin", "config": "slsqp", "at": at, "mode": mode, "try": t} for t in range(2 if tier == "quick" else 6))
+    errors = [("empty", 0), ("empty", 1), ("assert", 2), ("message", 1), ("exit3", 1), ("finish", 2)] if tier == "quick" else [
+        (e, k) for e in ("empty", "assert", "message", "exit3", "finish") for k in (0, 1, 2, 3)]
+    items.extend({"kind": "child-error", "config": "failing-backend", "error": e, "after": k} for e, k in errors)
     kill_cfgs = ["slsqp"] if tier == "quick" else ["slsqp", "slsqp-constrained-masked", "nelder-mead-budget", "de-vectorized"]
     points = range(3) if tier == "quick" else range(8)
     for name in kill_cfgs:
